@@ -90,6 +90,13 @@ def handle : List String → String
       | .error (.body e) => "raised " ++ showExc e ++ " [body]"
       | .error (.fromRemove e) => "raised " ++ showExc e
     | _, _ => "bad-request"
+  | ["tmp", content, truthy, ens, mk, wr] =>
+    match unhex content, parseBool truthy, parseOutcome ens, parseOutcome mk, parseOutcome wr with
+    | some c, some t, some e, some m, some w =>
+      let o := writeToTempfile c t e m w
+      let file := match o.file with | none => "none" | some f => hex f
+      s!"{showRes o.result} ensure={if o.ensureCalled then 1 else 0} file={file} closed={if o.fdClosed then 1 else 0}"
+    | _, _, _, _, _ => "bad-request"
   | ["fs_ensure", st] =>
     match parseState st with
     | some st =>
